@@ -29,6 +29,11 @@ Two == {<<gf, gg>> : gf \in FieldSet, gg \in FieldSet}
 Idx3 == {gt \in (1..NF) \X (1..NF) \X (1..NF) : TRUE}
 Three(gstride) == {<<FieldSeq[gt[1]], FieldSeq[gt[2]], FieldSeq[gt[3]]>> :
                    gt \in {gtt \in Idx3 : gstride = 1 \/ (gtt[1] * 5 + gtt[2] * 3 + gtt[3] + Seed) % gstride = 0}}
+\* seed-rotated schemas of 4, 5, 6 and 12 fields: a different sample of the 27^k spaces for every seed
+Pseudo(gj, gp) == ((((gj * 7919 + gp * 104729 + (Seed % 1000) * 1299709 + gj * gp * 31) % 1000003) \div 7) % NF) + 1
+MidSchema(glen, gj) == [gp \in 1..glen |-> FieldSeq[Pseudo(gj, gp)]]
+MidSchemas == {MidSchema(glen, gj) : glen \in {4, 5, 6, 12}, gj \in 1..(IF Thorough THEN 400 ELSE 60)}
+
 \* long schemas: up to 24 fields cycling through all field kinds, with a key of the wanted type put
 \* at the wanted position
 LongSchema(glen, gj, gkpos, gkty) ==
@@ -45,6 +50,7 @@ Small(gschemas, gns) == UNION {{Shape(gs, gk, gn, Cls(Len(gs) + gk + gn + FieldC
 Shapes == Small(One, {0, 1, 2, 100})
           \cup Small(Two, IF Thorough THEN {0, 2, 3} ELSE {2})
           \cup Small(Three(IF Thorough THEN 1 ELSE 41), {2})
+          \cup Small(MidSchemas, {3})
           \cup LongShapes \cup BigShapes
 
 Cases == SetToSeq(Shapes)
